@@ -9,17 +9,17 @@ open KMap
 /-- the mined part of the store is unchanged -/
 def SameMined (s s' : Store) : Prop :=
   s'.blocks = s.blocks ∧ s'.txrecs = s.txrecs ∧ s'.credits = s.credits ∧ s'.unspent = s.unspent ∧
-    s'.minedBalance = s.minedBalance
+    s'.minedBalance = s.minedBalance ∧ s'.debits = s.debits
 
-theorem SameMined.refl (s : Store) : SameMined s s := ⟨rfl, rfl, rfl, rfl, rfl⟩
+theorem SameMined.refl (s : Store) : SameMined s s := ⟨rfl, rfl, rfl, rfl, rfl, rfl⟩
 
 theorem SameMined.trans {a b c : Store} (h1 : SameMined a b) (h2 : SameMined b c) : SameMined a c := by
-  obtain ⟨a1, a2, a3, a4, a5⟩ := h1
-  obtain ⟨b1, b2, b3, b4, b5⟩ := h2
-  exact ⟨b1.trans a1, b2.trans a2, b3.trans a3, b4.trans a4, b5.trans a5⟩
+  obtain ⟨a1, a2, a3, a4, a5, a6⟩ := h1
+  obtain ⟨b1, b2, b3, b4, b5, b6⟩ := h2
+  exact ⟨b1.trans a1, b2.trans a2, b3.trans a3, b4.trans a4, b5.trans a5, b6.trans a6⟩
 
 theorem inv_of_sameMined {s s' : Store} (h : SameMined s s') (hi : Inv s) : Inv s' := by
-  obtain ⟨hb, ht, hc, hu, hm⟩ := h
+  obtain ⟨hb, ht, hc, hu, hm, _⟩ := h
   have e0 : ∀ k, creditInfo s' k = creditInfo s k := by intro k; unfold creditInfo; rw [hc, ht]
   have e1 : minedUnspent s' = minedUnspent s := by
     unfold minedUnspent minedCredits blockCredits txCredits
@@ -50,7 +50,7 @@ theorem foldl_preserves {α : Type} (P : Store → Prop) (f : Store → α → S
   | cons a t ih => intro s hp; exact ih _ (hf s a hp)
 
 theorem sameMined_putRawUnminedInput (s : Store) (k : OutPoint) (h : Nat) : SameMined s (putRawUnminedInput s k h) :=
-  ⟨rfl, rfl, rfl, rfl, rfl⟩
+  ⟨rfl, rfl, rfl, rfl, rfl, rfl⟩
 
 theorem sameMined_deleteRawUnminedInput (s : Store) (k : OutPoint) (h : Nat) :
     SameMined s (deleteRawUnminedInput s k h) := by
@@ -60,10 +60,10 @@ theorem sameMined_deleteRawUnminedInput (s : Store) (k : OutPoint) (h : Nat) :
   · split
     · exact SameMined.refl s
     · dsimp only
-      split <;> exact ⟨rfl, rfl, rfl, rfl, rfl⟩
+      split <;> exact ⟨rfl, rfl, rfl, rfl, rfl, rfl⟩
 
 theorem sameMined_unlockOutputRaw (s : Store) (op : OutPoint) : SameMined s (unlockOutputRaw s op) :=
-  ⟨rfl, rfl, rfl, rfl, rfl⟩
+  ⟨rfl, rfl, rfl, rfl, rfl, rfl⟩
 
 theorem sameMined_lockOutput {s s' : Store} {now id : Nat} {op : OutPoint} {d e : Int}
     (h : lockOutput s now id op d = .ok (e, s')) : SameMined s s' := by
@@ -72,12 +72,12 @@ theorem sameMined_lockOutput {s s' : Store} {now id : Nat} {op : OutPoint} {d e 
     | none =>
       simp [lockOutput, hk, hl] at h
       obtain ⟨_, rfl⟩ := h
-      exact ⟨rfl, rfl, rfl, rfl, rfl⟩
+      exact ⟨rfl, rfl, rfl, rfl, rfl, rfl⟩
     | some l =>
       by_cases hid : l.id = id
       · simp [lockOutput, hk, hl, hid] at h
         obtain ⟨_, rfl⟩ := h
-        exact ⟨rfl, rfl, rfl, rfl, rfl⟩
+        exact ⟨rfl, rfl, rfl, rfl, rfl, rfl⟩
       · simp [lockOutput, hk, hl, hid] at h
   · simp [lockOutput, hk] at h
 
@@ -105,7 +105,7 @@ theorem sameMined_insertMemPoolTx {s s' : Store} {rec : Tx} (h : insertMemPoolTx
     · cases h; exact SameMined.refl s
     · cases h
       exact foldl_preserves (SameMined s) _ (fun a p hp => hp.trans (sameMined_putRawUnminedInput a p rec.hash)) _ _
-        ⟨rfl, rfl, rfl, rfl, rfl⟩
+        ⟨rfl, rfl, rfl, rfl, rfl, rfl⟩
 
 theorem sameMined_addCredit_unmined {s s' : Store} {rec : Tx} {i : Nat} {chg : Bool}
     (h : addCredit s rec none i chg = .ok s') : SameMined s s' := by
@@ -117,7 +117,7 @@ theorem sameMined_addCredit_unmined {s s' : Store} {rec : Tx} {i : Nat} {chg : B
     · cases h; exact SameMined.refl s
     · split at h
       · cases h; exact SameMined.refl s
-      · cases h; exact ⟨rfl, rfl, rfl, rfl, rfl⟩
+      · cases h; exact ⟨rfl, rfl, rfl, rfl, rfl, rfl⟩
 
 theorem sameMined_removeConflictBody (rc : Store → Tx → M Store)
     (hrc : ∀ s t s', rc s t = .ok s' → SameMined s s') {s s' : Store} {rec : Tx}
@@ -145,10 +145,10 @@ theorem sameMined_removeConflictBody (rc : Store → Tx → M Store)
           split at hst
           · simp only [pure, Except.pure, Except.ok.injEq] at hst; subst hst; exact hb
           · exact hb.trans (hrc _ _ _ hst)
-        exact (ha.trans this).trans ⟨rfl, rfl, rfl, rfl, rfl⟩
+        exact (ha.trans this).trans ⟨rfl, rfl, rfl, rfl, rfl, rfl⟩
     have hs2 := foldl_preserves (SameMined s) (fun s inp => deleteRawUnminedInput s inp rec.hash)
       (fun a p hp => hp.trans (sameMined_deleteRawUnminedInput a p rec.hash)) rec.ins s1 hs1
-    exact hs2.trans ⟨rfl, rfl, rfl, rfl, rfl⟩
+    exact hs2.trans ⟨rfl, rfl, rfl, rfl, rfl, rfl⟩
 
 theorem sameMined_removeConflict : ∀ (n : Nat) (s : Store) (t : Tx) (s' : Store),
     removeConflict n s t = .ok s' → SameMined s s' := by
